@@ -102,9 +102,46 @@ NEEDED = {
  "C08e-panic-nil": "panic(null) under GODEBUG=panicnil=1 (odd shards)",
  "C08e-convert-mark-leaks-on-panic": "part TestC08Repair (the failing object repaired in place)",
  "C12e-ternary-flag-sticks-after-function": "surroundings of the meaning scripts",
+ # round 6
+ "C01f-unwind-skips-depth-zero": "belongs to C07/C06 (an abandoned loop in an earlier run)",
+ "C17f-failed-zone-cached-nil": "zones the host cannot load; time parts asked twice",
+ "C10f-large-sort-log-file": "phase with arguments of 65536-70000 entries",
+ "C19f-failed-regexp-cached-standin": "patterns that do not compile, new to the process",
+ "C04f-reflect-depth-leaks-past-limit": "part TestC04Deep (too-deep objects, depths at the limit)",
+ "C04f-cycle-mark-deleted-by-inner": "part TestC04Graphs (several back-references)",
+ "C04f-string-hashkey-by-rune": "part TestC04Graphs (keys that are not valid UTF-8)",
+ "C11f-unreflectable-types-seen-map": "record types made for the occasion with unconvertible fields",
+ "C11f-hash-entries-memo-shared": "mode hostvalues (all goroutines on the shared host objects)",
+ "C15f-constant-limit-65537": "belongs to C18 (stressor: exactly 65536+d constants over eight bodies)",
+ "C15f-unwind-closes-half": "belongs to C06/C07 (leaving two loops at once inside a function)",
+ "C15f-identifier-truncated-at-64": "names sharing a 76-character prefix",
+ "C07f-reflect-depth-leaks-past-limit": "too-deep objects, depths at the limit",
+ "C07f-cli-timeout-shared-by-files": "belongs to C20 (CLI: a first script that uses up its allowance)",
+ "C16f-string-hashkey-shared-hasher": "belongs to C11 (needs two goroutines)",
+ "C09f-integer-power-minint-loop": "operations on the ends of the integers inside the endless loops",
+ "C09f-recovered-panic-machine-without-context": "a failing run before the judged one",
+ "C09f-regcache-lock-leak": "belongs to C11 (a fresh pattern met by all goroutines at once; watchdog)",
+ "C08f-run-returns-holding-mutex": "watchdog around every API call; Run twice after a failed Prepare",
+ "C02f-function-size-check-uses-main": "part TestC02Limits (bodies crossing 65535 bytes end in jumps)",
+ "C06f-function-size-check-uses-main": "belongs to C18/C02 limits (a body beyond 65535 bytes)",
+ "C18f-function-size-check-uses-main": "stressor: bodies of exactly 65533-70000 bytes as function",
+ "C02f-arity-error-leaves-callee-code": "belongs to C06/C07 (a top-level arity error, then another run)",
+ "C20f-arity-error-leaves-callee-code": "belongs to C06/C07 (a top-level arity error, then another run)",
+ "C14f-integer-literal-2-63": "literals beyond the range of integers",
+ "C14f-float-literal-range-error-ignored": "literals beyond the range of finite floats",
+ "C05f-fold-accepts-65536": "provenance folded (constants the optimizer computes), 65534-65537",
+ "C20f-fold-accepts-65536": "belongs to C03/C05/C01 (a folded constant of exactly 65536)",
+ "C05f-unwind-depth-read-at-exit": "belongs to C07/C06 (an abandoned loop)",
+ "C13f-size-checked-on-node-entry": "belongs to C18 (stressor: bodies of exactly 65533-65538 bytes)",
+ "C13f-trailing-nul-is-eof": "NUL at every offset and at the very end",
+ "C12f-fold-keeps-stale-constants-out-of-range": "literal-only trees",
+ "C12f-divzero-fold-keeps-stale-constants": "literal-only trees",
+ "C03f-float-literal-string-by-value": "belongs to C19 (order of pairs under a repeated key)",
+ "C18f-sqrt-fold-abandoned-keeps-constants": "known-finding exclusion narrowed to perfect squares (roots of other constants are generated)",
+ "C18f-constant-count-check-removed": "stressor: exactly 65536+d constants over eight bodies",
 }
 rows = open(os.path.join(ROOT, "seeded", "MATRIX.md")).read().strip().splitlines()[2:]
-lines = ["| seeded change (suffix b = round 2, c = round 3, d = round 4, e = round 5) | what it does | caught by (quick tier, seed 1) | generator/oracle work it needed |", "|---|---|---|---|"]
+lines = ["| seeded change (suffix b = round 2, c = round 3, d = round 4, e = round 5, f = round 6) | what it does | caught by (quick tier, seed 1) | generator/oracle work it needed |", "|---|---|---|---|"]
 for r in rows:
     sid, prop, res = [c.strip() for c in r.strip("|").split("|")]
     title = ""
